@@ -25,6 +25,12 @@ def step (d : DSt) (line : String) : DSt × String :=
   | ["cleanup", k] => let s := cleanup d.s (Drv.nat! k); ({ s }, snap s)
   | ["opencheck", k] => let (s, r) := openCheck d.s (Drv.nat! k); ({ s }, ores r ++ snap s)
   | ["openinsert", k] => let (s, r) := openInsert d.s (Drv.nat! k); ({ s }, ores r ++ snap s)
+  | ["early", k] =>
+    -- the connection breaks right after newSession registered it (the schedule the harness forces with its crash-point
+    -- hook): the thread's two steps, then the break and the clean-up, then the thread goes on
+    if k = "eof" ∨ k = "junk" then
+      (d, if (Estab.run Estab.fixedProg [.t, .t, .peerBreak, .cleanup, .t]).panicked then "panic" else "returned")
+    else (d, "bad-op")
   | _ => (d, "bad-op")
 
 end Drv.C14
